@@ -265,8 +265,13 @@ class Expander:
         if fdef.decorator_list:
             return False
         a = fdef.args
-        if a.vararg or a.kwarg or a.kwonlyargs:
+        if a.kwarg or a.kwonlyargs:
             return False
+        if a.vararg:
+            # *args is supported when it is only forwarded (`f(*args)`) or used as a tuple value
+            va = a.vararg.arg
+            if any(isinstance(x, ast.Name) and x.id == va and isinstance(x.ctx, (ast.Store, ast.Del)) for x in ast.walk(fdef)):
+                return False
         body = _strip_doc(fdef.body)
         n = 0
         for x in _walk_no_nested(body):
@@ -369,8 +374,12 @@ class Expander:
         args = list(call.args)
         if recv is not None and recv != 'explicit':
             args = [recv] + args
+        extra = []
         if len(args) > len(cparams):
-            return None
+            if tdef.args.vararg is None:
+                return None
+            extra = args[len(cparams):]
+            args = args[:len(cparams)]
         binding = dict(zip(cparams, args))
         for k in call.keywords:
             if k.arg not in cparams or k.arg in binding:
@@ -411,6 +420,37 @@ class Expander:
                 caller_names.add(new)
         sub = _Subst(exprs, renames)
         body = [sub.visit(s) for s in body]
+        if tdef.args.vararg is not None:
+            va = tdef.args.vararg.arg
+            if not all(isinstance(x, (ast.Name, ast.Constant)) or (isinstance(x, ast.Attribute) and self._pure_chain(x)) for x in extra):
+                # evaluate each extra argument once, in order
+                tmp = []
+                for x in extra:
+                    nm = self._fresh('%s_arg' % va, caller_names)
+                    caller_names.add(nm)
+                    pre.append(ast.Assign(targets=[ast.Name(id=nm, ctx=ast.Store())], value=copy.deepcopy(x), lineno=call.lineno, col_offset=0))
+                    tmp.append(ast.Name(id=nm, ctx=ast.Load()))
+                extra = tmp
+
+            class V(ast.NodeTransformer):
+                def visit_Call(self, node):
+                    self.generic_visit(node)
+                    new_args = []
+                    for a in node.args:
+                        if isinstance(a, ast.Starred) and isinstance(a.value, ast.Tuple) and getattr(a.value, '_from_vararg', False):
+                            new_args.extend(a.value.elts)
+                        else:
+                            new_args.append(a)
+                    node.args = new_args
+                    return node
+
+                def visit_Name(self, node):
+                    if node.id == va and isinstance(node.ctx, ast.Load):
+                        t = ast.Tuple(elts=[copy.deepcopy(x) for x in extra], ctx=ast.Load())
+                        t._from_vararg = True
+                        return ast.copy_location(t, node)
+                    return node
+            body = [V().visit(s2) for s2 in body]
         if mode == 'tail':
             stmts = pre + body
             if self._can_fall_through(body):
